@@ -283,3 +283,6 @@ def run(ctx):
     with ctx.rule("C03.R11", "T4", "the per-lane uplink state (which holds a pending sync's events and its synced flag) is dropped when an unlink is accepted, never when the queued unlinked is written", floor=4) as r:
         uplinks.uplink_state_lifetime(r, ctx)
 
+    with ctx.rule("C03.R12", "T2", "a sync in progress cannot stall the lane: pop answers None only when nothing is queued (shared with C02.R11)", floor=1) as r:
+        from rules.common import pop_until_exhausted_rule
+        pop_until_exhausted_rule(r, ctx)
